@@ -145,7 +145,14 @@ class Check(PropertyCheck):
                   "content-length: findings F-C06b/c, the explicit guard of the _checked theorems); h2_to_h2_trailers: "
                   "trailers forwarded HTTP/2 -> HTTP/2 are emitted exactly as received and pass the next hop's validator; "
                   "status_preserved "
-                  "covers the three response conversions; conversion_keeps_message: sending "
+                  "covers the three response conversions, h2_to_h2_response / h1_to_h2_response are the parse-back theorems for "
+                  "RESPONSES written over HTTP/2 (same status; fields as received, resp. lower-cased / stripped / without the "
+                  "connection-specific ones, in order); cl_law_trailers_counterexample / h2_to_h1_trailers_counterexample: for a "
+                  "stream ended by a TRAILERS frame hyper-h2's check passes with fewer bytes than announced and both the law and "
+                  "the single-message conclusion are false (findings F-C06d/e) — the _checked theorems carry endOnTrailers := "
+                  "false explicitly; conversion_keeps_message (a RESTATEMENT OF A MODELLING DECISION — sendRequest returns its "
+                  "argument, sendRequest/sendAll are not run by the driver — kept as documentation; the claim about the code "
+                  "rests on the oracle's stored-before/after clause and the replay passes): sending "
                   "leaves the recorded request unchanged and every later send of the same flow emits what the first would "
                   "(the model's sendAll over any history of hops) — the harness checks both on the real code: the recorded "
                   "request/response state before and after it was sent must be equal (non-interference clause), and the "
@@ -158,8 +165,11 @@ class Check(PropertyCheck):
                   "messages, same leftover).")
     level_note = ("trusted / not proved: that hyper-h2 enforces H2Valid and its content-length check h2ClOk (the "
                   "transcriptions are tied to the library by the differential run on every case; the law 'content-length = "
-                  "body length' itself is no longer a hypothesis but derived from h2ClOk in the _checked theorems, with the "
-                  "hole — END_STREAM on the HEADERS frame, findings F-C06b/c — as their explicit guard); url.parse_authority (its verdict is a parameter); hpack. PARTIAL: the streamed "
+                  "body length' itself is no longer a hypothesis but derived from h2ClOk in the _checked theorems, with the two "
+                  "holes explicit: END_STREAM on the HEADERS frame (findings F-C06b/c, guard hguard) and a stream ended by "
+                  "trailers (findings F-C06d/e, argument endOnTrailers := false, refuted otherwise by "
+                  "cl_law_trailers_counterexample)); h2_to_h2 is exercised against the code for scheme = http only (transparent "
+                  "mode takes the scheme from the transport; the theorem holds for every scheme); url.parse_authority (its verdict is a parameter); hpack. PARTIAL: the streamed "
                   "(flow.request.stream) request conversion violates the property for bodies without content-length (finding "
                   "F-C06a, pinned by an upstream test): the code does NOT re-frame such a body as chunked, so the theorem is "
                   "_partial + _counterexample, and the model reproduces the defect byte for byte in the differential run; "
